@@ -354,7 +354,7 @@ func BuildGenesis(spec GenSpec, r *rand.Rand) (*types.AppState, *World) {
 		if i == 0 && spec.BigDelegators > 0 {
 			for j := 0; j < spec.BigDelegators; j++ {
 				k := NewKey("d", j)
-				add(k.Addr, 0, Bip(int64(100+j)))
+				add(k.Addr, 0, Bip(int64(100+10*j))) // sparse: an incoming delegation can fall between the two smallest stakes
 			}
 		}
 		c.TotalBipStake = total.String()
